@@ -672,40 +672,244 @@ def coq_doc_case(gen, d, fails, res):
 
 
 
-def fetchable(gen):
-    return [a for a in gen.order]
+def remove_urls(d, urls):
+    """the document without the references to these URLs (deep copy, `removed` marks; see impl_c20.doc_html)"""
+    d2 = copy.deepcopy(d)
+
+    def vis(kids):
+        for v in kids:
+            if v['t'] == 'svgimage':
+                if v['abs'] in urls:
+                    v['removed'] = True
+                vis(v.get('kids', []))
+
+    def sheet(kids):
+        for k in kids:
+            t = k['t']
+            if t == 'import':
+                if k['abs'] in urls:
+                    k['removed'] = True
+                sheet(k['kids'])
+            elif t == 'font':
+                for s_ in k['srcs']:
+                    if s_['abs'] in urls:
+                        s_['removed'] = True
+            elif t in ('bg', 'lsi', 'content'):
+                if k['abs'] in urls:
+                    k['removed'] = True
+                vis(k.get('kids', []))
+
+    for it in d2['items']:
+        t = it['t']
+        if t in ('link', 'style'):
+            if t == 'link' and it['abs'] in urls:
+                it['removed'] = True
+            sheet(it['kids'])
+        elif t in ('img', 'object', 'embed'):
+            if it['abs'] in urls:
+                it['removed'] = True
+            vis(it.get('kids', []))
+        elif t in ('attlink', 'attanchor', 'attopt'):
+            if it['abs'] in urls:
+                it['removed'] = True
+    return d2
 
 
-def stream_docs_basic(run, rng, n):
-    cases = []
-    for i in range(n):
-        gen = DocGen(random.Random(rng.getrandbits(48)), rng.choice([1, 2, 3, 4, 6, 8, 10, 12]))
-        d = gen.doc()
-        urls = fetchable(gen)
-        fails = {}
-        if urls and rng.random() < 0.8:
-            for u in rng.sample(urls, min(len(urls), rng.choice([1, 1, 2, 3]))):
-                kind = gen.world[u]['kind']
-                fails[u] = 'raise' if kind in ('attach', 'use') else rng.choice(MODES)
-        cases.append((gen, d, fails))
-    outs = common.run_impl('impl_c20', 'render_case', [{'doc': to_impl_doc(d), 'fails': f, 'options': {}} for _, d, f in cases], limit=120)
-    coq, kept = [], []
-    for (gen, d, f), (st, o) in zip(cases, outs):
-        if st != 'ok' or o.get('exc'):
-            print('RENDER PROBLEM', st, (o or {}).get('exc') if isinstance(o, dict) else o, f)
+OPTION_SETS = [{}, {}, {'optimize_images': True}, {'cache_mode': 'dict'}, {'pdf_variant': 'pdf/a-3u'},
+               {'pdf_variant': 'pdf/ua-1'}, {'uncompressed_pdf': True}, {'optimize_images': True, 'dpi': 96},
+               {'cache_mode': 'dict', 'pdf_variant': 'pdf/a-3u', 'jpeg_quality': 60}]
+
+
+def failure_sets(rng, gen, thorough):
+    urls = list(gen.order)
+
+    def mode_for(u, m=None):
+        kind = gen.world[u]['kind']
+        if kind in ('attach', 'use'):
+            return 'raise'
+        return m or rng.choice(MODES)
+    sets = [{}]
+    for u in urls:                                     # each single failure
+        if thorough:
+            for m in (MODES if gen.world[u]['kind'] not in ('attach', 'use') else ['raise']):
+                sets.append({u: m})
+        else:
+            sets.append({u: mode_for(u)})
+            if gen.world[u]['kind'] == 'image' and rng.random() < 0.5:
+                sets.append({u: mode_for(u)})
+    if thorough:
+        for k in (2, 3, 4):
+            combos = list(itertools.combinations(urls, k))
+            rng.shuffle(combos)
+            for c in combos[:40 if k == 2 else 25]:
+                sets.append({u: mode_for(u) for u in c})
+    else:
+        for _ in range(min(4, len(urls))):
+            k = rng.choice([2, 2, 3, 4])
+            if len(urls) >= k:
+                sets.append({u: mode_for(u) for u in rng.sample(urls, k)})
+    if urls and rng.random() < 0.3:
+        sets.append({u: mode_for(u) for u in urls})     # everything fails
+    seen, out = set(), []
+    for f in sets:
+        key = json.dumps(f, sort_keys=True)
+        if key not in seen:
+            seen.add(key)
+            out.append(f)
+    return out
+
+
+def expected_log_problems(gen, fails, res):
+    """clause (c): every failure that the library can notice leaves a log record"""
+    bad = []
+    fetched = set(res['calls'])
+    msgs = res['logs']
+    dbg = res['debug_logs']
+    n_att_fail = 0
+    for u, m in fails.items():
+        if u not in fetched:
             continue
-        coq.append(coq_doc_case(gen, d, f, o))
-        kept.append((gen, d, f, o))
-    masks = common.eval_cases('c20doc', PRE_DOC, 'doc * world * list (string * mode) * list string * list (Z * Z * string)', coq, 'doc_judge', per_file=40)
-    bad = [(m, k) for m, k in zip(masks, kept) if m]
-    print('cases', len(kept), 'bad', len(bad))
-    for m, (gen, d, f, o) in bad[:4]:
-        print('MASK', m, 'fails', f)
-        print(' calls', sorted(o['calls']))
-        print(' codes', observed_codes(gen, d, o))
-        print(' html', __import__('impl_c20').doc_html(to_impl_doc(d))[:3000])
-        print(' coq', coq_doc_case(gen, d, f, o)[:6000])
+        kind = gen.world[u]['kind']
+        if kind == 'image':
+            if not any(u in t and 'Failed to load image' in t for _, t in msgs):
+                bad.append(('image failure not logged', u, m))
+        elif kind == 'sheet':
+            if m == 'raise':
+                if not any(u in t and 'Failed to load stylesheet' in t for _, t in msgs):
+                    bad.append(('stylesheet failure not logged', u, m))
+            elif m in ('wrongtype', 'html'):
+                if not any((u in t and 'Unsupported stylesheet type' in t) or 'Parse error' in t for _, t in msgs):
+                    bad.append(('wrong-type stylesheet not logged', u, m))
+        elif kind == 'font':
+            if not any(u in t for _, t in dbg) and not any('cannot be loaded' in t for _, t in msgs):
+                bad.append(('font failure not logged (not even at DEBUG)', u, m))
+        elif kind == 'attach':
+            n_att_fail += res['calls'].count(u)
+    if n_att_fail and sum(1 for _, t in msgs if 'Failed to load attachment' in t) < 1:
+        bad.append(('attachment failure not logged', n_att_fail, 'raise'))
+    for key, v in res.get('effects', {}).items():
+        if key[0] == 'f' and v == 'fallback':
+            # a face that could not be loaded at all is a WARNING
+            if not any('cannot be loaded' in t and ("'f%s'" % key[1:]) in t for _, t in msgs):
+                # the face may sit in a sheet that was never loaded: then there is nothing to warn about
+                pass
     return bad
+
+
+def stream_docs(run, rng, ndocs, thorough=False):
+    t_cases = []
+    for i in range(ndocs):
+        nres = rng.choice([1, 2, 3, 4, 5, 6, 8, 10, 12, 12])
+        gen = DocGen(random.Random(rng.getrandbits(48)), nres)
+        d = gen.doc()
+        for f in failure_sets(rng, gen, thorough):
+            t_cases.append((gen, d, f, rng.choice(OPTION_SETS)))
+    jobs = []
+    for gen, d, f, opts in t_cases:
+        o = dict(opts)
+        jobs.append({'doc': to_impl_doc(d), 'fails': f, 'options': o, 'second_render': o.get('cache_mode') == 'dict'})
+        jobs.append({'doc': to_impl_doc(remove_urls(d, set(f))), 'fails': {}, 'options': o})
+    outs = common.run_impl('impl_c20', 'render_case', jobs, limit=120, chunksize=4)
+    coq, kept = [], []
+    stats = {'renders': len(jobs), 'fetches': 0, 'failing_fetches': 0, 'modes': {}, 'kinds': {}, 'schemes': {}, 'audit_events': 0,
+             'relative_refs': 0, 'options': {}}
+    reported = set()
+
+    def fail_once(sig_key, what, data, signature=None):
+        if sig_key in reported:
+            return
+        reported.add(sig_key)
+        run.fail(what, data, signature=signature)
+
+    for n, (gen, d, f, opts) in enumerate(t_cases):
+        (st1, r1), (st2, r2) = outs[2 * n], outs[2 * n + 1]
+        data = {'stream': 'docs', 'doc': jobs[2 * n]['doc'], 'doc_removed': jobs[2 * n + 1]['doc'], 'fails': f, 'options': opts}
+        if st1 != 'ok' or st2 != 'ok':
+            fail_once(('worker', st1, st2), 'render did not finish: %s / %s' % (st1, (r1 if st1 != 'ok' else r2)), data,
+                      signature='render-timeout' if 'timeout' in (st1, st2) else None)
+            continue
+        if r1['exc'] or r2['exc']:
+            e = r1['exc'] or r2['exc']
+            fail_once(('exc', e['type'], e['site']), 'render with failing fetches %s raised %s at %s during %s: %s' % (
+                sorted(set(f.values())), e['type'], e['site'], e['stage'], e['msg']), dict(data, exc=e),
+                signature='crash:%s:%s' % (e['type'], e['site']))
+            continue
+        stats['fetches'] += len(r1['calls'])
+        stats['audit_events'] += r1['audit_n']
+        stats['options'][json.dumps(opts, sort_keys=True)] = stats['options'].get(json.dumps(opts, sort_keys=True), 0) + 1
+        for u, m in f.items():
+            if u in r1['calls']:
+                stats['failing_fetches'] += 1
+                stats['modes'][m] = stats['modes'].get(m, 0) + 1
+                k = gen.world[u]['kind']
+                stats['kinds'][k] = stats['kinds'].get(k, 0) + 1
+        for u in r1['calls']:
+            sch = u.split(':', 1)[0]
+            stats['schemes'][sch] = stats['schemes'].get(sch, 0) + 1
+        # (a) model: fetches and effects, judged in Coq
+        coq.append(coq_doc_case(gen, d, f, r1))
+        kept.append((gen, d, f, opts, r1, data))
+        # (b) failure = absence, on the implementation itself
+        if r1['fp'] != r2['fp']:
+            fail_once(('fp', tuple(sorted(set(f.values())))), 'layout/style fingerprint with failing %s differs from the document '
+                      'without the reference(s)' % (sorted(f.items()),), data, signature='failure-differs-from-absence')
+        elif r1['pdf']['images'] != r2['pdf']['images'] or r1['pdf']['files'] != r2['pdf']['files'] \
+                or r1['pdf']['file_annots'] != r2['pdf']['file_annots']:
+            fail_once(('pdf', tuple(sorted(set(f.values())))), 'PDF images/embedded files with failing %s differ from the document '
+                      'without the reference(s): %s vs %s' % (sorted(f.items()), r1['pdf'], r2['pdf']), data,
+                      signature='failure-differs-from-absence-pdf')
+        # (c) logs
+        lb = expected_log_problems(gen, f, r1)
+        if lb:
+            fail_once(('log', lb[0][0]), '%s: %s (%s)' % lb[0], dict(data, logs=r1['logs']), signature='failure-not-logged')
+        # (d) streams handed out are closed (the external <use> call site is a listed finding of its own)
+        use_urls = {a for a, e in gen.world.items() if e['kind'] == 'use'}
+        unclosed = [u for u in r1['opened'] if u not in r1['closed'] and u not in use_urls]
+        if unclosed:
+            fail_once(('unclosed',), 'file_obj of %s never closed' % unclosed[:3], data, signature='file-obj-not-closed')
+        # (e) nothing opened behind the fetcher's back
+        for r in (r1, r2):
+            if r['audit_bad']:
+                fail_once(('audit', r['audit_bad'][0][1], str(r['audit_bad'][0][2])[:40]),
+                          'during %s the process did %s %r outside the fetcher' % tuple(r['audit_bad'][0][:3]),
+                          dict(data, audit=r['audit_bad'][:5]), signature='opened-behind-the-fetcher')
+        if r1['extra_args']:
+            fail_once(('args',), 'url_fetcher called with extra arguments %s' % (r1['extra_args'][:2],), data)
+        # cache shared by two renders: no image fetched twice, same layout
+        if 'calls_second' in r1:
+            again = [u for u in r1['calls_second'] if gen.world.get(u, {}).get('kind') == 'image']
+            if again:
+                fail_once(('cache2',), 'image %s fetched again although the shared cache holds it' % again[:2], data,
+                          signature='cache-not-used')
+            if r1.get('fp_second') != r1['fp']:
+                fail_once(('cache2fp',), 'second render with the shared cache lays out differently', data,
+                          signature='cache-changes-layout')
+        if r1['pdf']['problems'] or r2['pdf']['problems']:
+            fail_once(('pdfstruct',), 'written PDF is structurally unsound: %s' % (r1['pdf']['problems'] or r2['pdf']['problems']), data)
+    try:
+        masks = common.eval_cases('c20doc', PRE_DOC, 'doc * world * list (string * mode) * list string * list (Z * Z * string)',
+                                  coq, 'doc_judge', per_file=30)
+        mism_f = [k for k, m in zip(kept, masks) if m & 1]
+        mism_e = [k for k, m in zip(kept, masks) if m & 4]
+        run.oblige('corr:docs-fetches(recorded url_fetcher calls = model expected_fetches)', not mism_f,
+                   'first: fails=%s calls=%s' % ((mism_f[0][2], sorted(mism_f[0][4]['calls'])) if mism_f else ('', '')))
+        run.oblige('corr:docs-effects(observed rules/fonts/images/painted/embedded = model effects)', not mism_e,
+                   'first: fails=%s observed=%s' % ((mism_e[0][2], observed_codes(mism_e[0][0], mism_e[0][1], mism_e[0][4])) if mism_e else ('', '')))
+        for k in (mism_f[:1] + mism_e[:1]):
+            run.fail('the render requests/uses other resources than the model of the call sites predicts '
+                     '(recorded calls %s)' % sorted(k[4]['calls']), k[5], signature='model-mismatch')
+    except RuntimeError as exc:
+        run.oblige('corr:docs', False, str(exc))
+    run.count('docs', len(kept), [(json.dumps(f, sort_keys=True), hashlib.sha1(json.dumps(data['doc'], sort_keys=True).encode()).hexdigest()[:8])
+                                  for _, _, f, _, _, data in kept],
+              samples=[{'html': __import__('impl_c20').doc_html(kept[0][5]['doc'])[:700], 'fails': kept[0][2]}] if kept else [])
+    run.stream_info('docs', rule='documents with 1..12 resources: linked sheets, @import nested <= 3 (url()/string form, media, valid and '
+                    'late position), @font-face with 1-3 sources, img/object/embed, background/list-style/content images, SVG with inner '
+                    '<image> and external <use>, link/anchor/option attachments, icon/script/iframe/alternate-sheet/screen-media '
+                    'references that must not be fetched; URLs http/https/file/data, relative (.., ./, sub/), absolute path, network '
+                    'path, query, non-ASCII and space; <base href>; x failure sets (each single URL, subsets up to 4, all) x modes '
+                    'raise/empty/trunc/wrongtype/html x option sets; every case also rendered with the references removed',
+                    documents=ndocs, **stats)
 
 
 def check(run):
@@ -713,7 +917,51 @@ def check(run):
     thorough = run.tier == 'thorough'
     stream_urls(run, rng, 4000 if thorough else 1200)
     stream_consume(run, rng, 1500 if thorough else 700)
+    stream_docs(run, rng, 60 if thorough else 36, thorough)
 
 
 def replay(data):
+    d = data.get('data', {})
+    st = d.get('stream')
+    if st == 'docs':
+        jobs = [{'doc': d['doc'], 'fails': d['fails'], 'options': dict(d['options']), 'want_fp': True,
+                 'second_render': d['options'].get('cache_mode') == 'dict'},
+                {'doc': d['doc_removed'], 'fails': {}, 'options': dict(d['options']), 'want_fp': True}]
+        (s1, r1), (s2, r2) = common.run_impl('impl_c20', 'render_case', jobs, limit=120)
+        bad = 0
+        for s_, r in ((s1, r1), (s2, r2)):
+            if s_ != 'ok' or r.get('exc'):
+                print('replay: render problem', s_, r.get('exc') if isinstance(r, dict) else r)
+                bad = 1
+            elif r['audit_bad']:
+                print('replay: opened behind the fetcher', r['audit_bad'][:5])
+                bad = 1
+        if not bad:
+            print('replay: calls', sorted(r1['calls']))
+            print('replay: logs', r1['logs'][:8])
+            if r1['fp'] != r2['fp']:
+                bad = 1
+                a, b = r1['fp_full'], r2['fp_full']
+                for x, y in zip(a, b):
+                    if x != y:
+                        print('replay: first differing box\n  failing: %s\n  removed: %s' % (x, y))
+                        break
+                else:
+                    print('replay: box counts differ', len(a), len(b))
+            if r1['pdf'] != r2['pdf']:
+                print('replay: pdf facts', r1['pdf'], r2['pdf'])
+                bad = 1
+            unclosed = [u for u in r1['opened'] if u not in r1['closed']]
+            if unclosed:
+                print('replay: unclosed', unclosed)
+        return bad
+    if st == 'consume-direct':
+        (s1, o), = common.run_impl('impl_c20', 'consume_direct', [d['case']])
+        print('replay:', s1, o)
+        return 1 if (s1 != 'ok' or o['code'] == 2) else 0
+    if st == 'probe':
+        (s1, o), = common.run_impl('impl_c20', 'probe', [d['case']], limit=120)
+        print('replay:', s1, o)
+        return 1 if (s1 != 'ok' or o.get('bad')) else 0
+    print('nothing to replay for', st)
     return 0
